@@ -30,6 +30,7 @@ namespace {
 struct Subject
 {
   std::unique_ptr<rc::SharedVariable<Blob>> var;
+  std::unique_ptr<rc::SharedVariable<bool>> flag;   // the one-byte instantiation (Plan::b != 0)
   std::unique_ptr<rc::SharedOptionalVariable<Blob>> opt;
   std::unique_ptr<rc::OnlineAverage> avg;      // also holds the OnlineVariance
   rc::OnlineVariance * variance = nullptr;
@@ -116,9 +117,11 @@ void taskMain(void * arg)
       switch (op.kind) {
         case O_STORE:
           // op.v != 0 selects the operator form of the same operation (operator= / operator T())
+          if (sc == S_SHARED_VAR && s.flag) {if (op.v != 0) {*s.flag = (op.seq & 1) != 0;} else {s.flag->store((op.seq & 1) != 0);} break;}
           if (sc == S_SHARED_VAR) {if (op.v != 0) {*s.var = Blob::make(op.seq);} else {s.var->store(Blob::make(op.seq));}} else {s.opt->store(Blob::make(op.seq));}
           break;
         case O_LOAD: {
+            if (s.flag) {bool b = op.v != 0 ? static_cast<bool>(*s.flag) : s.flag->load(); rec.outSeq = b ? 1 : 0; rec.flag = true; break;}
             Blob b = op.v != 0 ? static_cast<Blob>(*s.var) : s.var->load();
             if (!b.intact()) {simrt::fail("torn-read", "SharedVariable::load returned a half-written value (words belong to different stores)", "torn-read|SharedVariable");}
             rec.outSeq = b.w[0];
@@ -171,11 +174,11 @@ void taskMain(void * arg)
       // ---- O(1) monitors of the long runs
       switch (op.kind) {
         case O_LOAD:
-          if (rec.outSeq < tc.lastSeq) {
+          if (!s.flag && rec.outSeq < tc.lastSeq) {
             simrt::fail("stale-read", "a reader saw store #" + std::to_string(rec.outSeq) + " after it had already seen #" +
               std::to_string(tc.lastSeq) + " of the single writer", "stale-read|SharedVariable");
           }
-          tc.lastSeq = rec.outSeq;
+          if (!s.flag) {tc.lastSeq = rec.outSeq;}
           break;
         case O_CONSUME: if (rec.has) {tc.consumed->push_back(rec.outSeq);} break;
         case O_GET_AVG:
@@ -211,6 +214,7 @@ ExecResult runScenario(const Plan & p, bool recordTrace)
   switch (p.scenario) {
     // p.a != 0 selects the other constructor: default-constructed variable then store(), optional born with a value
     case S_SHARED_VAR:
+      if (p.b != 0) {s->flag.reset(new rc::SharedVariable<bool>(false)); break;}
       if (p.a != 0) {s->var.reset(new rc::SharedVariable<Blob>()); s->var->store(Blob::make(0));} else {s->var.reset(new rc::SharedVariable<Blob>(Blob::make(0)));}
       break;
     case S_SHARED_OPT:
